@@ -499,6 +499,8 @@ def main(tier, seed):
                'get_distance(queried code) = the symbolic whole-metre distance (its contract); the real get_distance on tabulated codes',
                'ages sampled: %r (the factor clause is proved per age; the bracketing argument does not depend on the age)' % (AGES,),
                'betweenness up to 1e-9 + the certified float error')
+    from props.C14 import datafile_obligations
+    datafile_obligations(run, ('2015', '2023'))          # the rows every clause below reads through get_data() are those of the data file
     J = []
     for year in ('2015', '2023'):
         for g in 'mf':
